@@ -128,6 +128,37 @@ class Store:
         finally:
             c.close()
 
+    # The repository's `FakeStorageBackend` adapter speaks this same wire contract (POST /alloc, PUT upload_url) but builds a
+    # fresh httpx2 client (and TLS context) per request: 60 ms per upload.  Same endpoints, one plain connection each.
+    def alloc(self) -> dict[str, str]:
+        c = http.client.HTTPConnection(self.host, self.port, timeout=10)
+        try:
+            c.request("POST", "/alloc", body=b"{}", headers={"Content-Type": "application/json", "Content-Length": "2"})
+            r = c.getresponse()
+            body = r.read()
+            assert r.status == 200, r.status
+            return dict(json.loads(body))
+        finally:
+            c.close()
+
+    def put_url(self, upload_url: str, data: bytes, encoding: str | None) -> None:
+        c = http.client.HTTPConnection(self.host, self.port, timeout=10)
+        try:
+            h = {"Content-Type": "application/octet-stream", "Content-Length": str(len(data))}
+            if encoding:
+                h["Content-Encoding"] = encoding
+            c.request("PUT", urlparse(upload_url).path, body=data, headers=h)
+            r = c.getresponse()
+            r.read()
+            assert r.status == 204, r.status
+        finally:
+            c.close()
+
+    def upload(self, data: bytes, content_encoding: str | None) -> str:
+        a = self.alloc()
+        self.put_url(a["upload_url"], data, content_encoding)
+        return a["download_url"]
+
     def stats(self) -> dict[str, int]:
         c = http.client.HTTPConnection(self.host, self.port, timeout=10)
         try:
@@ -165,12 +196,17 @@ class RecordingStorage:
             self.mutator(up, self.store)
 
     def upload(self, data: bytes, schema: pa.Schema, *, content_encoding: str | None = None) -> str:
-        url = self.store.backend.upload(data, schema, content_encoding=content_encoding)
+        url = self.store.upload(data, content_encoding)
         self._record(url, "server", data, content_encoding)
         return url
 
     def generate_upload_url(self, schema: pa.Schema) -> Any:
-        u = self.store.backend.generate_upload_url(schema)
+        from datetime import UTC, datetime, timedelta
+
+        from vgi_rpc.external import UploadUrl
+
+        a = self.store.alloc()
+        u = UploadUrl(upload_url=a["upload_url"], download_url=a["download_url"], expires_at=datetime.now(UTC) + timedelta(hours=1))
         self.vended[u.upload_url] = u.download_url
         return u
 
